@@ -414,7 +414,7 @@ theorem bind_post (s : State) (ns name : String) (uid : Nat) (node : String) (ch
                   (infos.filterMap id) (ba.2.2.filterMap id) = bl at *
               split
               · rename_i hlres
-                rcases bindCommitX_cases bl.1 pod ns name uid node (ba.2.2.filterMap id) with ex | ex
+                rcases bindFinish_good_state bl.1 pod ns name uid node (ba.2.2.filterMap id) ch.answer with ex | ex
                 · rw [ex]
                   exact ⟨lp.1.of_eq rfl rfl rfl rfl rfl rfl, Or.inl lpods⟩
                 · rw [ex]
